@@ -19,18 +19,23 @@ LEVEL = "model_checking"
 EXH = {
     "quick": {
         "C04": [([1, 2], 2, 6, 2, ["add", "compactall", "reload"], False),
-                ([1, 2], 2, 6, 1, ["addition", "abort", "compactall"], False)],
-        "C05": [([1, 2, 3], 1, 6, 3, ["add", "compactrange", "compactall"], False, [1], ["reopen", "clean"])],
+                ([1, 2], 2, 6, 1, ["addition", "abort", "compactall"], False),
+                ([1, 2], 1, 6, 2, ["autoadd", "refused", "compactall"], False)],      # Add with automatic compaction (any range), refused Adds
+        "C05": [([1, 2, 3], 1, 6, 3, ["add", "compactrange", "compactall"], False, [1], ["reopen", "clean"]),
+                ([1, 2], 1, 6, 3, ["autoadd", "add"], False)],
         "C06": [([1, 2], 2, 6, 2, ["add", "compactall"], True)],
         "C08": [([1, 2, 3], 1, 5, 2, ["add", "compactall", "clean"], False)],
         "C09": [([1, 2], 2, 6, 2, ["add", "compactall", "reload"], False)],
         "C10": [([1, 2], 3, 4, 1, ["add", "compactrange"], False, [1], ["reload", "reopen"])],
         "C16": [([1, 2], 2, 6, 2, ["add", "empty", "compactall", "clean"], False, [1], ["clean", "empty"]),
-                ([1, 2], 1, 6, 2, ["add", "abort", "compactall", "clean"], False)],
+                ([1, 2], 1, 6, 2, ["add", "abort", "compactall", "clean"], False),
+                ([1, 2], 2, 6, 2, ["add", "close", "open", "clean"], False)],           # handles that come and go
     },
     "thorough": {
         "C04": [([1, 2], 3, 7, 2, ["add", "addition", "abort", "empty", "compactall", "reload"], False),
-                ([1, 2, 3], 1, 7, 3, ["add", "addition", "compactall", "compactrange", "reload", "reopen", "clean"], False)],
+                ([1, 2, 3], 1, 7, 3, ["add", "addition", "compactall", "compactrange", "reload", "reopen", "clean"], False),
+                ([1, 2], 2, 6, 1, ["autoadd", "refused"], False),
+                ([1, 2, 3], 1, 6, 2, ["autoadd", "autocompact"], False)],
         "C05": [([1, 2], 3, 8, 3, ["add", "compactrange", "compactall", "reopen"], False),
                 ([1, 2, 3], 1, 7, 4, ["add", "compactrange", "reopen", "clean"], False)],
         "C06": [([1, 2], 2, 7, 2, ["add", "addition", "compactall", "compactrange", "clean", "reopen"], True),
@@ -275,6 +280,14 @@ def run(pid, tier):
 
         # ---- 5. validation of every recorded trace
         viols, rej, vstats = P.validate(outs, sc, jvms=12)
+        # ---- 5b. conformance to the implementation-level specification: every recorded execution inside StackProto's vocabulary
+        # (schedules chosen on the code side included) must be a behaviour of StackProto, event by event (TraceStackProto)
+        cand = [o for o in outs if not o.get("fault")]
+        if tier == "quick" and len(cand) > 700:
+            keepw = [o for o in cand if o["id"][0] not in "wv"]          # code-driven schedules first: the walks conform by construction
+            cand = random.Random(seed).sample(keepw, min(len(keepw), 600)) + [o for o in cand if o["id"][0] in "wv"][:100]
+        conf_in, conf_drift, conf_stats = P.conform(cand, runs, sc, jvms=8)
+        conf_self = P.conform_selftest(cand, runs, sc)
         th.join()
 
         # ---- verdicts
@@ -372,6 +385,9 @@ def run(pid, tier):
             code_driven_runs=len(outs) - nwalks, crash_runs=len([r for r in runs if r.get("crash")]),
             crash_points_total=crash_total, crash_enumeration_complete=crash_complete,
             single_preemption_runs=len(pre), single_preemption_space=preempt_total,
+            traces_checked_against_StackProto=conf_in, traces_conforming_to_StackProto=conf_in - len(conf_drift),
+            conformance_events=conf_stats["events"], conformance_selftest=conf_self,
+            conformance_drift_examples=[dict(run=d[0], event_index=d[1], event=d[2]) for d in conf_drift[:3]],
             fault_injection_runs=len([r for r in runs if r.get("fault")]), fault_points_total=fault_total,
             events_validated=vstats["events"], trace_states=vstats["states"],
             model_actions_replayed=dict(actcount),
@@ -384,8 +400,10 @@ def run(pid, tier):
                                       "table contents are projected by the independent decoder fmtdec"])
         for d in drift[:5]:
             print("DRIFT property=%s run=%s %s" % (pid, d[0], d[1]))
-        print("%s %s: %d states, %d traces (%d walks, %d drift), %d violations, %.1fs" %
-              (pid, tier, states, len(outs), nwalks, len(drift), nviol, time.time() - t0))
+        for d in conf_drift[:5]:
+            print("DRIFT property=%s run=%s event %d is not a step of StackProto: %s" % (pid, d[0], d[1], json.dumps(d[2])))
+        print("%s %s: %d states, %d traces (%d walks, %d drift), %d of %d traces conform to StackProto, %d violations, %.1fs" %
+              (pid, tier, states, len(outs), nwalks, len(drift), conf_in - len(conf_drift), conf_in, nviol, time.time() - t0))
         return 1 if nviol else 0
     finally:
         shutil.rmtree(sc, ignore_errors=True)
